@@ -94,8 +94,15 @@ def chains(r, end, depth, scope_template=False):
     function body (random statement form) or constant initialiser.  Returns (decl_text, expr, kinds)."""
     decl, e, kinds = ["int idf(int q) { return q; }"], end, []
     for d in range(depth):
-        k = r.choice(["fun", "fun", "init", "void-out"])
-        if k == "void-out":
+        k = r.choice(["fun", "fun", "init", "void-out", "local-array"])
+        if k == "local-array":
+            # the value is read only inside the initialiser of a function-local array (or array of structs)
+            if r.random() < 0.5:
+                decl.append("int cf%d() { int t[2] = {%s, 0}; return t[0]; }" % (d, e))
+            else:
+                decl.append("int cf%d() { { struct { int u; int v; } t[2] = {{%s, 1}, {2, 3}}; return t[0].u; } }" % (d, e))
+            e = "cf%d()" % d
+        elif k == "void-out":
             # the value travels through a *void* helper with an out-parameter: only the helper's read set carries the dependence
             decl.append("void vh%d(int &out) { out = %s; }" % (d, e))
             decl.append("int cf%d() { int t = 0; vh%d(t); return t; }" % (d, d))
@@ -165,6 +172,10 @@ def gen_template_level(ctx):
         "range-bound/select": lambda e: dict(select="i : int[0, %s]" % e),
         "array-size/template-function-local": lambda e: dict(tpost="void lf() { int z[%s]; z[0] = 1; }" % e),
         "scalar-set-size/template": lambda e: dict(tpost="typedef scalar[%s] S; S sv;" % e),
+        # a type NAME is not unique: a template may reuse the name of a global typedef, and one template may declare several scalar sets
+        "range-bound/typedef-shadows-global": lambda e: dict(gpost="typedef int[0,3] GT; GT gx;", tpost="typedef int[0, %s] GT; GT sy;" % e),
+        "array-size/typedef-shadows-global": lambda e: dict(gpost="typedef int GA[2]; GA ga;", tpost="typedef int GA[%s]; GA sa;" % e),
+        "scalar-set-size/second-in-template": lambda e: dict(tpost="typedef scalar[2] SA; SA ssa; typedef scalar[%s] SB; SB ssb;" % e),
     }
     for cn, mk in tctx.items():
         for depth in (0, 1, 2, 3):
